@@ -80,3 +80,28 @@ Example C06_av1_example_kernels :
   k_av1_fraglen 1449 2 = 1447 /\ k_av1_obus_inc 2 = 3 /\ k_av1_seq 65535 = 0 /\ k_av1_w_whole 2 = 48 /\ k_av1_w_frag 0 = 16 /\
   k_av1_setz 0 = 128 /\ k_av1_sety 144 = 208 /\ k_av1_setn 16 = 24 /\ k_av1_setw_whole 128 1 = 160 /\ k_av1_setw_frag 0 0 = 16.
 Proof. vm_compute. repeat split. Qed.
+
+(* ---- translated code (round 8): av1.LEB128.MarshalSize / MarshalTo of the pinned mediacommon module, regenerated from the
+   source on every run as programs of the language of GVL.Imp (coq/gen/Prog.v, tools/go2coq -prog), compute the model's
+   leb_size / leb_enc for every uint32: the size returned, the bytes written at the front of the buffer, the rest of
+   the buffer untouched in length. *)
+From GVL Require Import Imp.
+From GVG Require Import Prog.
+From GV_av1 Require Import LebCode.
+Theorem C06_av1_leb_size_program_is_the_model : forall l, (0 <= l < 4294967296)%Z ->
+  exists st', bs p_leb_size (mkS [(p_leb_size_v_l, l)] []) (ORet [VZ (Z.of_N (leb_size (Z.to_N l)))] st').
+Proof. exact leb_size_program_is_the_model. Qed.
+Print Assumptions C06_av1_leb_size_program_is_the_model.
+
+Theorem C06_av1_leb_marshal_program_is_the_model : forall l buf, (0 <= l < 4294967296)%Z -> (leb_size (Z.to_N l) <= nlen buf)%N ->
+  exists st' rest, bs p_leb_marshal (mkS [(p_leb_marshal_v_l, l)] [(p_leb_marshal_a_buf, buf)])
+                      (ORet [VZ (Z.of_N (leb_size (Z.to_N l)))] st') /\
+    A st' p_leb_marshal_a_buf = map Z.of_N (leb_enc (Z.to_N l)) ++ rest /\ (nlen buf = leb_size (Z.to_N l) + nlen rest)%N.
+Proof. exact leb_marshal_program_is_the_model. Qed.
+Print Assumptions C06_av1_leb_marshal_program_is_the_model.
+
+Example C06_av1_example_leb_program :
+  exec 50 p_leb_size (mkS [(p_leb_size_v_l, 300%Z)] []) = ORet [VZ 2%Z] (mkS [(p_leb_size_v_l, 0%Z); (p_leb_size_v_n, 2%Z)] []) /\
+  A (match exec 50 p_leb_marshal (mkS [(p_leb_marshal_v_l, 300%Z)] [(p_leb_marshal_a_buf, [9; 9; 9]%Z)]) with ORet _ s => s | _ => mkS [] [] end)
+    p_leb_marshal_a_buf = [172; 2; 9]%Z.
+Proof. exact leb_program_example. Qed.
